@@ -10,15 +10,48 @@ RULE = ("breadth-first search over histories of add_* events (origin with/withou
         "axis, zone, long name, channels in default and named sets, frame, parameter, tool, group, no-format, zone "
         "with the second origin's reference; thorough adds computation, splice, path, calibration, process, equipment, "
         "well reference point), all objects named 'X' so that names collide within and across types; each state is "
-        "completed (missing origin/channel/frame added last), written and strictly decoded; non-trivial = a state "
-        "whose file was written and compared; states are distinct op lists")
+        "completed (missing origin/channel/frame added last), written and strictly decoded; states are merged on the "
+        "canonical reference-model state with sets sorted by key (creation order of different sets is irrelevant to "
+        "identities and references); non-trivial = a transition whose file was written and compared")
 ASSUMPTIONS = ["strict reader mc/rp66.py", "reference model mc/model.py (copy number = earlier same-named objects of "
                "the set; origin = explicit reference, else defining origin's, back-filled when the origin comes later)"]
 MIN_DISTINCT_OUTCOMES = 2
 
 
 def depth(tier):
-    return 4 if tier == 'quick' else 5
+    return 5 if tier == "quick" else 7
+
+
+def canon_state(h):
+    """Canonical state for the identity/reference oracle: the reference-model state with the sets sorted by key.
+
+    Correctness argument for merging: copy numbers depend only on the ordered object list of each set; origin
+    numbering and back-filling only on the ordered list of origins and on which objects have no origin yet;
+    references only on the handles' identities. None of them, and no clause of this check's oracle, depends on the
+    order in which *different* sets were first created (that order only moves whole records in the file: C09's
+    business, which uses the unmerged enumeration). Two histories with equal canonical state therefore have equal
+    futures for C07."""
+    import hashlib
+    import json
+    m = M.Model(hist.to_spec(h, complete=False))
+    ids = {hh: (o.kind, o.set_name, o.lf.sets[(o.kind, o.set_name)].index(o)) for hh, o in m.objs.items()}
+
+    def enc(v):
+        if isinstance(v, dict) and '$ref' in v:
+            return ['ref', ids[v['$ref']]]
+        if isinstance(v, list):
+            return [enc(x) for x in v]
+        if isinstance(v, dict) and '$arr' in v:
+            return 'arr'
+        return v
+    sets = []
+    for (k, sn), lst in sorted(m.lfs[0].sets.items(), key=lambda kv: (kv[0][0], kv[0][1] or '')):
+        sets.append([k, sn, [[o.name, o.origin, o.copy, {a: enc(e.get('value')) for a, e in sorted(o.attrs.items())}]
+                             for o in lst]])
+    origins = [ids[o.h] for o in m.lfs[0].objs_of('origin')]
+    nf = [[ids[hh], b.hex()] for hh, b in m.lfs[0].nf]
+    free = [c for c in hist.free_channels(h)]
+    return hashlib.sha256(json.dumps([sets, origins, nf, free], sort_keys=True, default=str).encode()).hexdigest()[:20]
 
 
 def bounds(tier):
@@ -27,7 +60,7 @@ def bounds(tier):
 
 
 def initial_key():
-    return hist.canon([])
+    return canon_state([])
 
 
 def enabled_events(h, tier):
@@ -70,7 +103,7 @@ def check_state(h):
 
 
 def step(h, tier):
-    return hist.canon(h), check_state(h)
+    return canon_state(h), check_state(h)
 
 
 def run_case(case):
